@@ -14,6 +14,7 @@ Definition run_case (prop : bytes) (x : sx) : sx :=
   else if bytes_eqb prop (sym "C08") then run_case08 x
   else if bytes_eqb prop (sym "C15") then run_case15 x
   else if bytes_eqb prop (sym "C19") then run_case19 x
+  else if bytes_eqb (head_sym x) (sym "lcm") || bytes_eqb (head_sym x) (sym "multof") then run_case08 x
   else if bytes_eqb (head_sym x) (sym "stopctl") || bytes_eqb (head_sym x) (sym "cfg") then run_case18 x
   else if bytes_eqb (head_sym x) (sym "session") then run_session ROLLBACK_CLEARS_CACHE (tail_items x)
   else SL [SY (sym "unknown-property")].
